@@ -3,9 +3,10 @@
 # Runs checks against a seeded change WITHOUT touching /repo: the patch is applied to the scratch
 # worktree /tmp/wt/seedrun (at /repo's HEAD), a copy of the harness is pointed at it
 # (path dependencies rewritten) and built into /tmp/seedrun/build. Evidence/replays go to /tmp/seedrun.
+# SLOT=<n> selects an independent scratch area so that several can run side by side.
 # Used while other runs are using /repo; the curated matrix (seed_matrix.sh) runs against /repo itself.
 patch="$1"; tier="$2"; shift 2
-wt=/tmp/wt/seedrun; S=/tmp/seedrun
+SLOT="${SLOT:-0}"; wt=/tmp/wt/seedrun$SLOT; S=/tmp/seedrun$SLOT
 export CARGO_NET_OFFLINE=true
 mkdir -p $S/build
 [ -d $wt ] || git -C /repo worktree add --detach $wt HEAD -q || exit 2
